@@ -10,7 +10,10 @@
    sink invocation).  [client_line cfg c] is the text of the call (Some (inr l)), its
    rejection (Some (inl e)) or None when the call does not type-check (then, and only then,
    send_call is None).  [next_outcome script] is the sink's answer to the next emit.
-   [send_calls] runs a sequence of calls on one client.  Nothing is bounded. *)
+   [send_calls] runs a sequence of calls on one client.  Nothing is bounded.
+   A rejection [inl e] is the library's own ([e = EInvalid]: a Duration that does not fit, an
+   empty packed list) or the error [e] a user-defined value type returned from its conversion
+   (argument [AUserErr e]; any [merror], of kind InvalidInput or IoError). *)
 Require Import Cadence.Base.Prelude.
 Require Import Cadence.Base.Decimal.
 Require Import Cadence.Model.Convert.
@@ -59,28 +62,45 @@ Theorem c03_refusal_reported : forall cfg fm c script o script' l k id,
 Proof. exact refusal_reported. Qed.
 
 (* conversely an I/O error is only ever reported for a refusal by the sink during that very
-   call, with exactly the sink's payload *)
+   call, with exactly the sink's payload -- or because the argument is a user-defined value
+   whose own conversion returned exactly that I/O error, and then nothing was handed to the sink
+   and no answer of it consumed *)
 Theorem c03_io_error_source : forall cfg fm c script o script' k id,
   send_call cfg fm c script = Some (o, script') ->
   (o_ret o = RError (EIo k id) \/ In (EIo k id) (o_handled o)) ->
-  next_outcome script = Refuse k id /\ exists l, client_line cfg c = Some (inr l) /\ o_emitted o = [l].
+  (next_outcome script = Refuse k id /\ exists l, client_line cfg c = Some (inr l) /\ o_emitted o = [l]) \/
+  (k_arg c = AUserErr (EIo k id) /\ o_emitted o = [] /\ script' = script).
 Proof. exact io_error_source. Qed.
 
-(* a rejected value: invalid-input error, nothing emitted, no sink outcome consumed *)
+(* ... hence, for every argument that is not a failing user-defined value, only for a refusal *)
+Theorem c03_io_error_source_builtin : forall cfg fm c script o script' k id,
+  send_call cfg fm c script = Some (o, script') ->
+  (forall e, k_arg c <> AUserErr e) ->
+  (o_ret o = RError (EIo k id) \/ In (EIo k id) (o_handled o)) ->
+  next_outcome script = Refuse k id /\ exists l, client_line cfg c = Some (inr l) /\ o_emitted o = [l].
+Proof.
+  intros cfg fm c script o script' k id H Hu Hr.
+  destruct (io_error_source _ _ _ _ _ _ _ _ H Hr) as [A|[A _]]; [exact A|]. exfalso. exact (Hu _ A).
+Qed.
+
+(* a rejected value: exactly the error of the rejection -- the invalid-input error, unless the
+   argument is a user-defined value whose conversion returned [e] --, nothing emitted, no sink
+   outcome consumed *)
 Theorem c03_rejected_value : forall cfg fm c script o script' e,
   send_call cfg fm c script = Some (o, script') -> client_line cfg c = Some (inl e) ->
   o_emitted o = [] /\ script' = script /\
   match fm with
-  | Quiet => o_ret o = RUnit /\ o_handled o = [EInvalid]
-  | _ => o_ret o = RError EInvalid /\ o_handled o = []
-  end.
+  | Quiet => o_ret o = RUnit /\ o_handled o = [e]
+  | _ => o_ret o = RError e /\ o_handled o = []
+  end /\
+  (e = EInvalid \/ k_arg c = AUserErr e).
 Proof. exact rejected_value. Qed.
 
 (* conversely an invalid-input error is reported only for a rejected value *)
 Theorem c03_invalid_only_if_rejected : forall cfg fm c script o script',
   send_call cfg fm c script = Some (o, script') ->
   (o_ret o = RError EInvalid \/ In EInvalid (o_handled o)) ->
-  client_line cfg c = Some (inl InvalidInput) /\ o_emitted o = [] /\ script' = script.
+  client_line cfg c = Some (inl EInvalid) /\ o_emitted o = [] /\ script' = script.
 Proof. exact invalid_only_if_rejected. Qed.
 
 (* the quiet form returns unit whatever happens, emits what try_send emits, and invokes the
@@ -142,9 +162,10 @@ Theorem c03_sequence_clauses : forall cfg cs script os,
   (forall e, client_line cfg c = Some (inl e) ->
      o_emitted o = [] /\
      match fm with
-     | Quiet => o_ret o = RUnit /\ o_handled o = [EInvalid]
-     | _ => o_ret o = RError EInvalid /\ o_handled o = []
-     end) /\
+     | Quiet => o_ret o = RUnit /\ o_handled o = [e]
+     | _ => o_ret o = RError e /\ o_handled o = []
+     end /\
+     (e = EInvalid \/ k_arg c = AUserErr e)) /\
   (fm <> Quiet -> o_handled o = []) /\ (fm = Quiet -> o_ret o = RUnit).
 Proof.
   intros cfg cs script os H i fm c o Hi Ho seen.
@@ -222,3 +243,108 @@ Example c03_sequence_defined_witness :
   send_calls cfg [(Quiet, ok); (Plain, ill); (TrySend, ok)] [Refuse 1 2] = None /\
   to_value (k_kind ill) (k_arg ill) = None.
 Proof. exact send_calls_defined_witness. Qed.
+
+(* ==== added after the audit of 2026-10-02 (selftest/audit/REPORT-2026-10-02.md) ==== *)
+(* ==== added for audit item A.24 (model extension: a user-defined value whose conversion fails) ==== *)
+Require Import Cadence.Proofs.AuditU1.
+(* a call whose argument is a user-defined value whose To*Value impl returns Err(e): for every
+   kind, key, configuration, builder calls, call form and sink script the call is defined; nothing
+   is handed to the sink and the script comes back untouched (no answer of the sink consumed);
+   try_send and the plain method return exactly e and do not invoke the handler; the quiet form
+   returns unit and hands exactly e to the handler, once *)
+Theorem c03_user_error_call : forall cfg fm c script e,
+  k_arg c = AUserErr e ->
+  send_call cfg fm c script =
+  Some (match fm with
+        | Quiet => {| o_ret := RUnit; o_emitted := []; o_handled := [e] |}
+        | _ => {| o_ret := RError e; o_emitted := []; o_handled := [] |}
+        end, script).
+Proof. exact user_error_call. Qed.
+
+(* the same, clause by clause *)
+Theorem c03_user_error_clauses : forall cfg fm c script e,
+  k_arg c = AUserErr e ->
+  send_call cfg fm c script <> None /\
+  forall o script', send_call cfg fm c script = Some (o, script') ->
+    o_emitted o = [] /\ script' = script /\
+    match fm with
+    | Quiet => o_ret o = RUnit /\ o_handled o = [e]
+    | _ => o_ret o = RError e /\ o_handled o = []
+    end.
+Proof. exact user_error_call_clauses. Qed.
+
+(* conversely, for ANY call, a reported error (returned, or handed to the handler) has exactly one
+   of three sources: the library rejected the value (InvalidInput; nothing emitted, nothing
+   consumed), the sink refused the line during this very call (its own I/O error; the line was
+   emitted, one answer consumed), or the argument is a user-defined value whose conversion
+   returned exactly this error (nothing emitted, nothing consumed) *)
+Theorem c03_reported_error_source : forall cfg fm c script o script' e,
+  send_call cfg fm c script = Some (o, script') ->
+  (o_ret o = RError e \/ In e (o_handled o)) ->
+  (e = EInvalid /\ client_line cfg c = Some (inl EInvalid) /\ o_emitted o = [] /\ script' = script) \/
+  (exists k id l, e = EIo k id /\ next_outcome script = Refuse k id /\
+                  client_line cfg c = Some (inr l) /\ o_emitted o = [l] /\ script' = tl script) \/
+  (k_arg c = AUserErr e /\ o_emitted o = [] /\ script' = script).
+Proof. exact reported_error_source. Qed.
+
+(* an I/O error is reported with nothing handed to the sink exactly when it is the user's *)
+Theorem c03_io_error_without_emit : forall cfg fm c script o script' k id,
+  send_call cfg fm c script = Some (o, script') ->
+  (o_ret o = RError (EIo k id) \/ In (EIo k id) (o_handled o)) ->
+  (o_emitted o = [] <-> k_arg c = AUserErr (EIo k id)).
+Proof. exact io_error_without_emit. Qed.
+
+(* in a sequence such a call is invisible to all the others: the outcomes are those of the
+   sequence WITHOUT it, with its own outcome inserted at its position (so the calls after it see
+   the untouched script), and the script left over is the same *)
+Theorem c03_user_error_sequence : forall cfg cs1 fm c cs2 script e,
+  k_arg c = AUserErr e ->
+  send_calls cfg (cs1 ++ (fm, c) :: cs2) script =
+  option_map (fun os => firstn (length cs1) os ++
+                        match fm with
+                        | Quiet => {| o_ret := RUnit; o_emitted := []; o_handled := [e] |}
+                        | _ => {| o_ret := RError e; o_emitted := []; o_handled := [] |}
+                        end :: skipn (length cs1) os)
+             (send_calls cfg (cs1 ++ cs2) script) /\
+  script_after cfg (cs1 ++ (fm, c) :: cs2) script = script_after cfg (cs1 ++ cs2) script.
+Proof. exact user_error_invisible. Qed.
+
+(* in the terms of c03_sequence: the i-th outcome is the one above, and the call is not counted
+   among the calls that consume an answer of the sink *)
+Theorem c03_user_error_nth : forall cfg cs script os i fm c e,
+  send_calls cfg cs script = Some os ->
+  nth_error cs i = Some (fm, c) -> k_arg c = AUserErr e ->
+  nth_error os i = Some (match fm with
+                         | Quiet => {| o_ret := RUnit; o_emitted := []; o_handled := [e] |}
+                         | _ => {| o_ret := RError e; o_emitted := []; o_handled := [] |}
+                         end) /\
+  length (filter (fun fc => accepted cfg (snd fc)) (firstn (S i) cs)) =
+  length (filter (fun fc => accepted cfg (snd fc)) (firstn i cs)).
+Proof. exact user_error_nth. Qed.
+
+(* non-vacuity: a user's InvalidInput error and a user's I/O error (kind 5, payload 9), in all
+   forms, between accepted calls against [refuse(7,1); accept]: the failing calls consume nothing
+   (the same two answers go to the same two sent calls as in the sequence without them); every
+   kind accepts the type; the two kinds of error *)
+Example c03_user_error_witness :
+  let cfg := {| c_prefix := []; c_tags := []; c_container := None |} in
+  let ok := {| k_kind := Counter; k_key := [107]%N; k_arg := AI64 1; k_ops := [] |} in
+  let uinv := {| k_kind := Gauge; k_key := [107]%N; k_arg := AUserErr EInvalid; k_ops := [] |} in
+  let uio := {| k_kind := SetK; k_key := [107]%N; k_arg := AUserErr (EIo 5 9);
+                k_ops := [WithTagValue [116]%N] |} in
+  let line := [107; 58; 49; 124; 99]%N in
+  send_calls cfg [(TrySend, uio); (Quiet, ok); (Plain, uinv); (Quiet, uio); (Quiet, uinv); (TrySend, ok)]
+             [Refuse 7 1; Accept] =
+  Some [ {| o_ret := RError (EIo 5 9); o_emitted := []; o_handled := [] |};
+         {| o_ret := RUnit; o_emitted := [line]; o_handled := [EIo 7 1] |};
+         {| o_ret := RError EInvalid; o_emitted := []; o_handled := [] |};
+         {| o_ret := RUnit; o_emitted := []; o_handled := [EIo 5 9] |};
+         {| o_ret := RUnit; o_emitted := []; o_handled := [EInvalid] |};
+         {| o_ret := ROkMetric line; o_emitted := [line]; o_handled := [] |} ] /\
+  send_calls cfg [(Quiet, ok); (TrySend, ok)] [Refuse 7 1; Accept] =
+  Some [ {| o_ret := RUnit; o_emitted := [line]; o_handled := [EIo 7 1] |};
+         {| o_ret := ROkMetric line; o_emitted := [line]; o_handled := [] |} ] /\
+  map (fun k => to_value k (AUserErr (EIo 5 9)))
+      [Counter; Timer; Gauge; Meter; Histogram; Distribution; SetK] = repeat (Some (inl (EIo 5 9))) 7 /\
+  ekind EInvalid = InvalidInput /\ ekind (EIo 5 9) = IoError.
+Proof. exact user_error_witness. Qed.
